@@ -221,17 +221,30 @@ class Timeout(Exception):
     pass
 
 
-def run_smc(cfg: dict, fault_at=None, fault_prior_at=None, watchdog_iters=400, **extra):
-    """one call of sampler.sample; returns dict(status, samples, sampler, target, rng, exc, ckpts)"""
+def run_smc(cfg: dict, fault_at=None, fault_prior_at=None, watchdog_iters=400, reuse=None, **extra):
+    """one call of sampler.sample; returns dict(status, samples, sampler, target, rng, exc, ckpts).
+    `reuse=<result of an earlier run_smc>`: the SAME sampler object (and target, proposal) serves another `sample()` call with the
+    options of `cfg` (a sampler object may be used for several runs; every run must behave like a run on a fresh object)."""
     cfg = {**DEFAULT, **cfg}
-    target = Target(cfg["dims"], center=cfg["like_center"], width=cfg["like_width"], half=cfg["half"], like_cut=cfg["like_cut"],
-                    offset=cfg.get("like_offset", 0.0))
+    if reuse is not None:
+        target = reuse["target"]
+        target.n_like = target.n_prior = target.points_like = 0
+        target.calls.clear()
+    else:
+        target = Target(cfg["dims"], center=cfg["like_center"], width=cfg["like_width"], half=cfg["half"], like_cut=cfg["like_cut"],
+                        offset=cfg.get("like_offset", 0.0))
     target.fault_at, target.fault_prior_at = fault_at, fault_prior_at
     target.fault_exc = FaultInterrupt if cfg.get("fault_kind") == "interrupt" else Fault
     rng = RecRng(cfg["seed"])
     if cfg["sampler"] == "emcee_smc":
         np.random.seed(cfg["seed"])
-    sampler, flow = make_sampler(cfg, target)
+    if reuse is not None:
+        sampler, flow = reuse["sampler"], reuse["flow"]
+        sampler.mutate, sampler.log_prob = reuse["_orig_mutate"], reuse["_orig_log_prob"]     # drop the previous run's wrappers
+        if hasattr(flow, "g"):
+            flow.g = np.random.default_rng(cfg["seed"] + 17)        # the proposal's own explicit source, as for a fresh object
+    else:
+        sampler, flow = make_sampler(cfg, target)
     ckpts = []
     cb = extra.pop("record_checkpoints", False)
     kw = sample_kwargs(cfg, rng, **extra)
@@ -273,7 +286,7 @@ def run_smc(cfg: dict, fault_at=None, fault_prior_at=None, watchdog_iters=400, *
 
     sampler.mutate = guarded
     out = {"cfg": cfg, "sampler": sampler, "target": target, "rng": rng, "flow": flow, "ckpts": ckpts, "kernel_calls": count,
-           "mutate_trace": trace}
+           "mutate_trace": trace, "_orig_mutate": orig_mutate, "_orig_log_prob": orig_log_prob}
     try:
         out["samples"] = sampler.sample(cfg["n_samples"], **kw)
         out["status"] = "done"
